@@ -40,7 +40,7 @@ ANCHORS = [
 ASSUMPTIONS = [
     "criteria are re-implemented from the docstrings / property wording in jsverif/ref.py",
     "dominated filter on lists with zero durations: only the generic obligations and "
-    "'criterion set or a single zero-duration operation' are required",
+    "'criterion set or zero-duration operation(s) only' are required",
 ]
 REQUIRED_COUNTERS = {"filter_applications_checked": 3000, "composite_checks": 300,
                      "pruned_something": 100, "available_ops_checks": 300,
@@ -133,9 +133,11 @@ def check_filter(ctx, run, names, spec_form, L_ids, pruned_flag):
         ctx.count("zero_duration_lists")
         if len(names) == 1:
             crit = r.dominated_criterion(L_ids)
-            ok = out_ids == crit or (len(out_ids) == 1 and r.op_dur[out_ids[0]] == 0)
+            # documented shortcut: zero-duration operations can be processed at once, so the filter
+            # may answer with zero-duration operation(s) only (one, as the pinned code does, or all)
+            ok = out_ids == crit or (out_ids and all(r.op_dur[o] == 0 for o in out_ids))
             if not ok:
-                w["want"] = {"criterion": crit, "or": "single zero-duration op"}
+                w["want"] = {"criterion": crit, "or": "zero-duration operation(s) only"}
                 ctx.violation("c07_dominated_zero_duration_result", w)
 
 
